@@ -120,6 +120,32 @@ def check_condition(ctx, f, g, w, num=2):
     gi = cfg_of(ini, subst_env=False)
     ok = len(pre) == 1 and gi.path_avoiding(gi.entry.id, {gi.exit.id}, {gi.node_of(pre[0]).id}) is None
     ctx.ob(num, "K3", "the first batch is loaded before the first tick", ok, ini, pre[0] if pre else ini.node, construct="preload", detail=f"{len(pre)} call(s)")
+    if len(pre) == 1:
+        # ... by an object that is ready for it: every field the loading step reads (or updates in place) has been set before the preload — also on the
+        # path it takes when the trace is empty
+        adv = P.fn(WL, "WorkloadTrace.advance_to_next_batch")
+        ctx.touch(adv)
+        cl = P.cls(WL, "WorkloadTrace")
+        class_level = {t.id for st in cl.node.body if isinstance(st, (ast.Assign, ast.AnnAssign)) for t in (st.targets if isinstance(st, ast.Assign) else [st.target]) if isinstance(t, ast.Name)}
+        reads = set()
+        for n in own_nodes(adv.node):
+            if isinstance(n, ast.Attribute) and norm.is_name(n.value, "self") and n.attr not in cl.methods and n.attr not in class_level:
+                if isinstance(n.ctx, ast.Load):
+                    reads.add(n.attr)
+                elif isinstance(parent(n), ast.AugAssign) and parent(n).target is n:
+                    reads.add(n.attr)
+        pst = pre[0]
+        while not isinstance(pst, ast.stmt):
+            pst = parent(pst)
+        ready = set()
+        for st in own_nodes(ini.node):
+            if isinstance(st, (ast.Assign, ast.AnnAssign)) and getattr(st, "value", None) is not None:
+                for t in (st.targets if isinstance(st, ast.Assign) else [st.target]):
+                    if isinstance(t, ast.Attribute) and norm.is_name(t.value, "self") and st is not pst and gi.dominates(st, pst):
+                        ready.add(t.attr)
+        missing = sorted(reads - ready)
+        ctx.ob(num, "K3", "the preload finds the object initialised: every field the loading step reads is set in the constructor before the preload", not missing, ini, pst,
+               construct="fields set before the preload", detail=f"read by advance_to_next_batch: {sorted(reads)}; not yet set at the preload: {missing}")
     return le[0] if len(le) == 1 else None
 
 
